@@ -16,6 +16,10 @@ let in_range v = BZ.geq v BZ.one && BZ.lt v secp_n
 let last_byte sg = match List.rev sg with b :: _ -> [b] | [] -> []
 
 let dispatch = function
+  | ["sign"; d; m; "-"; ht; form] when form.[0] = 'U' ->
+      (match lib_sign_upper (z_of d) (bytes_of_hex m) (z_of ht) with
+       | Some ((r, s), der) -> str_z r ^ " " ^ str_z s ^ " " ^ hex_of_bytes der
+       | None -> "ERR")
   | "sign" :: d :: m :: k :: ht :: _ ->
       (match lib_sign (z_of d) (bytes_of_hex m) (kopt k) (z_of ht) with
        | Some ((r, s), der) -> str_z r ^ " " ^ str_z s ^ " " ^ hex_of_bytes der
